@@ -40,7 +40,7 @@ PROPS = {
                    "judged by a parser written from the format specification that accounts for every byte. No proof of absence.",
         level_note="Trusted: pqref (independent thrift compact + Parquet walker), golang/snappy and compress/gzip for decompression. "
                    "Not demanded: ColumnMetaData.encodings content, created_by, statistics content (C12).",
-        fixtures=["flat24", "nest", "tiny", "deep", "samename", "rep3", "collide", "big"],
+        fixtures=["flat24", "nest", "tiny", "deep", "samename", "rep3", "collide", "big", "dupleaf"],
         gen_anchored=True,
         stages=[dict(test="TestC02", kind="rapid", quick=2400, thorough=48000)],
         replay="TestReplayC02",
@@ -60,7 +60,7 @@ PROPS = {
                    "lab stage, on every compiling shape of the bounded grammar; rep/def levels and values read from the file by an independent parser "
                    "are compared entry by entry with the canonical striping, then reassembled by a spec-only assembler.",
         level_note="Trusted: pqref's shredder/assembler (written from the Dremel definitions, self-tested as inverses) and page parser.",
-        fixtures=["flat24", "nest", "tiny", "deep", "samename", "rep3", "rep3b", "reqopt"],
+        fixtures=["flat24", "nest", "tiny", "deep", "samename", "rep3", "rep3b", "reqopt", "dupleaf"],
         gen_anchored=True,
         stages=[dict(test="TestC03", kind="rapid", quick=2400, thorough=48000)],
         replay="TestReplayC03",
@@ -94,7 +94,7 @@ PROPS = {
         level_text="Exploration: for generated valid files the three introspection calls are compared field by field with what an independent "
                    "thrift decoder and page walker find in the same bytes.",
         level_note="Trusted: pqref. The library's thrift schema predates RowGroup fields 5..7, which are therefore not compared.",
-        fixtures=["flat24", "nest", "tiny", "deep", "samename", "rep3", "big"],
+        fixtures=["flat24", "nest", "tiny", "deep", "samename", "rep3", "big", "dupleaf"],
         gen_anchored=False,
         stages=[dict(test="TestC16", kind="rapid", quick=2400, thorough=48000), dict(test="TestC16Foreign", kind="rapid", quick=1600, thorough=32000),
                 dict(test="TestC16FooterSweep", kind="enum", quick=1, thorough=1)],
